@@ -366,18 +366,28 @@ func (p *PsUnpacker) parseAvStream(code int, rtpts uint32, rb []byte, index int)
 		return -1
 	}
 
+	if length < 3 {
+		// too short for the flags and PES_header_data_length, nothing to extract
+		return 2 + length
+	}
+
 	ptsDtsFlag := rb[i+1] >> 6
 	phdl := int(rb[i+2]) // pes header data length
 	i += 3
 
+	if length < 3+phdl {
+		// the header claims to be longer than the packet, nothing to extract
+		return 2 + length
+	}
+
 	var pts int64 = -1
 	var dts int64 = -1
 	j := 0
-	if ptsDtsFlag&0x2 != 0 {
+	if ptsDtsFlag&0x2 != 0 && phdl >= 5 {
 		_, pts = readPts(rb[i:])
 		j += 5
 	}
-	if ptsDtsFlag&0x1 != 0 {
+	if ptsDtsFlag&0x1 != 0 && phdl >= j+5 {
 		_, dts = readPts(rb[i+j:])
 	} else {
 		dts = pts
